@@ -9,7 +9,8 @@ CLAIMED = {
         "residues, equalises row lengths, creates no all-gap column; rows are found under their input index; expansion of a well-shaped "
         "Hirschberg path is a valid column list. Tied to the code by unit correspondence (update_gaps, make_seq, add_gap_info_to_path_n, "
         "mirror_path_n, make_linear_sequence), replay of every real merge through the model, and an integrity oracle on real outputs. "
-        "The composed pipeline model kalignRun (the whole of kalign(): detection, canonical order, distances, guide tree incl. bisecting k-means, binary32 DP, weave, rank restoration) is tied to the public kalign() bit-for-bit (op kalign_sys) and satisfies kalignRun_integrity with `= .ok rows` as its only hypothesis.",
+        "The composed pipeline model kalignRun (the whole of kalign(): detection, canonical order, distances, guide tree incl. bisecting k-means, binary32 DP, weave, rank restoration) is tied to the public kalign() bit-for-bit (op kalign_sys) and satisfies kalignRun_integrity with `= .ok rows` as its only hypothesis. "
+        "kalignFile_integrity / kalignFile_no_fault: the same for the file API (whole-program model kalignFile, tied by the kalign_file correspondence).",
    note="Premise `Aligner.Valid` (DP controller yields well-shaped paths) is monitored on every merge, proved only from `pathOK` onwards. "
         "Trusted: Lean kernel, translators, harness; qsort/fprintf by specification; k-means tree is an arbitrary tree in the theorem.",
    technique="Lean 4 induction over guide trees + weave algebra; differential correspondence against the C functions",
@@ -20,7 +21,8 @@ CLAIMED["C10"] = dict(
    text="Lean theorem C10_subalignment_preserved: for every guide tree, every node v and every valid aligner, the final rows of v's members with "
         "their all-gap columns removed are exactly v's alignment at completion (one merge applies the same whole-column insertion to every member of a side). "
         "Tied to the code by the NODE_DONE hook: snapshot of member gap vectors at completion vs projection of the real final alignment, on UPGMA and k-means trees, "
-        "threads 1/4/16 with schedule jitter, plus replay of every real merge through the model.",
+        "threads 1/4/16 with schedule jitter, plus replay of every real merge through the model. "
+        "recAln_subalignment_preserved states the property for the recAln of the composed pipeline model (tied by kalign_sys); the literal finalRow form is `_partial` (needs distinct member indices at the root, decidable on the result).",
    note="Premise `Aligner.Valid` monitored on every merge. Trusted: Lean kernel, harness hook dump, Python projection oracle.",
    technique="Lean 4 induction along the sub-tree relation over the weave algebra; hook-based snapshot/projection oracle",
    ref="4 C10")
@@ -66,7 +68,8 @@ CLAIMED["C04"] = dict(
    text="Lean model of the readers on bytes (line splitting, format sniffing, read_fasta/clu/msf, merge) bit-for-bit tied to the C readers by correspondence (incl. a malformed "
         "stream); theorems: scanner keeps letters / counts punctuation as gaps; reading FASTA or Clustal presentations (any widths, blank lines, gap glyphs, padding, junk lines) "
         "yields the same names and residues; formats agree; letter histogram and detected kind depend on residues only. Oracle: real runs on re-presentations (gap densities to 50 "
-        "per residue, widths, Clustal/MSF renderings, 2..5 files) vs the plain FASTA run.",
+        "per residue, widths, Clustal/MSF renderings, 2..5 files) vs the plain FASTA run. "
+        "kalignFile_presentation_independent states the property for the whole-program model kalignFile (readers, dealign, kalignRun stages, writers), tied to kalign_read_input/kalign_run/kalign_write_msa and the CLI's run_kalign() byte-for-byte by the kalign_file correspondence.",
    note="MSF headers: proved for an explicit grammar of header lines (free text, any Name:/Len:/Check:/Weight: layout; msfHeader_grammar, read_msf_presentation) that covers "
         "what kalign writes and PileUp-style headers; names > 255 bytes / with blanks / a `//` inside a name line are outside it. Several files: read_split_files / "
         "split_same_as_one_file under the explicit class hypothesis that is the recorded finding C04-split-class.",
@@ -75,14 +78,16 @@ CLAIMED["C04"] = dict(
 CLAIMED["C06"] = dict(
    text="Lean theorems fasta/clu/msf_roundtrip(+_input), sniff_written_*, roundtrip_any, cross_format: for every well-formed alignment (decidable AlnWF: names over [A-Za-z0-9_.|-], "
         "1..200 bytes, rows of equal length >= 1, every row has a residue) reading what the writer produced returns exactly names, residues and gap vectors in order, and the "
-        "sniffer selects the right reader. Tie: bit-exact correspondence of writers and readers on generated alignments; oracle read(write(A)) on the real code for all formats.",
+        "sniffer selects the right reader. Tie: bit-exact correspondence of writers and readers on generated alignments; oracle read(write(A)) on the real code for all formats. "
+        "kalignFile_roundtrip: whatever the whole-program model writes reads back to exactly its names and rows (kalign_file correspondence ties kalignFile to the real code).",
    note="fprintf/getline/snprintf by specification; side conditions on version/basename/date (FileOK) are decidable and shown satisfiable.",
    technique="Lean 4 proofs (sorted line-buffer layout lemma, 60-column chunking); differential correspondence; round-trip oracle",
    ref="4 C06")
 CLAIMED["C15"] = dict(
    text="Lean theorems fasta_shape, blocks_shape_clu/msf, block_columns, msf_len, msf_checksums, msf_type, gcg_spec about the writer model (tied bit-for-bit to the C writers); "
         "oracle: independent Python parser of the three formats on synthetic alignments through the real writers and on real kalign_run outputs (wrapping at 60, block structure, "
-        "MSF length / per-row GCG checksums / total / type).",
+        "MSF length / per-row GCG checksums / total / type). "
+        "kalignFile_output_shape: every output of the whole-program model kalignFile has the stated shape in its format (kalign_file correspondence ties kalignFile to the real code).",
    note="strftime date masked; independent parser trusted as oracle.",
    technique="Lean 4 proofs over the writer model; differential correspondence; independent-parser oracle",
    ref="4 C15")
